@@ -329,10 +329,113 @@ func c17Dispatch(tree *refTree, disable bool, names []string, label string) *Sce
 	}
 }
 
+// dynAssigner is an assigner whose method set changes while the server runs (NewServer allows that for
+// an assigner that is safe for concurrent use; under the scheduler every step is atomic).
+type dynAssigner struct{ set map[string]bool }
+
+func (d *dynAssigner) Assign(ctx context.Context, method string) jrpc2.Handler {
+	if !d.set[method] {
+		return nil
+	}
+	return func(ctx context.Context, req *jrpc2.Request) (any, error) { return "dyn|" + req.Method(), nil }
+}
+
+func (d *dynAssigner) Names() []string {
+	var out []string
+	for n := range d.set {
+		out = append(out, n)
+	}
+	sort.Strings(out)
+	return out
+}
+
+// c17Dynamic: the method list reported by rpc.serverInfo and Server.ServerInfo is the assigner's list at
+// the time of asking: before Start, after every change of the assigner, and across a restart.
+func c17Dynamic() *Scenario {
+	steps := [][]string{{"a", "b"}, {"b", "c"}, {"a.x", "b", "c"}, {}, {"z"}} // each sorted
+	return &Scenario{
+		Name:   "method list of a changing assigner: ServerInfo before Start, rpc.serverInfo after each change, restart",
+		Params: map[string]any{"method_sets": steps},
+		Seq: func(r *SeqRun) {
+			for _, restartAt := range []int{-1, 1, 2} {
+				var problems []string
+				x := vs.Run(nil, func() {
+					d := &dynAssigner{set: map[string]bool{}}
+					for _, n := range steps[0] {
+						d.set[n] = true
+					}
+					srv := jrpc2.NewServer(d, nil)
+					if got := srv.ServerInfo().Methods; strings.Join(got, ",") != strings.Join(steps[0], ",") {
+						problems = append(problems, fmt.Sprintf("before Start: ServerInfo().Methods = %q, want %q", got, steps[0]))
+					}
+					cch, sch := channel.Direct()
+					srv.Start(sch)
+					cli := jrpc2.NewClient(cch, nil)
+					for i, set := range steps {
+						d.set = map[string]bool{}
+						for _, n := range set {
+							d.set[n] = true
+						}
+						if i == restartAt {
+							cli.Close()
+							srv.WaitStatus()
+							cch, sch = channel.Direct()
+							srv.Start(sch)
+							cli = jrpc2.NewClient(cch, nil)
+						}
+						var info jrpc2.ServerInfo
+						if err := cli.CallResult(context.Background(), "rpc.serverInfo", nil, &info); err != nil {
+							problems = append(problems, fmt.Sprintf("step %d: rpc.serverInfo failed: %v", i, err))
+						} else if strings.Join(info.Methods, ",") != strings.Join(set, ",") {
+							problems = append(problems, fmt.Sprintf("step %d (restart at %d): rpc.serverInfo methods = %q, the assigner lists %q", i, restartAt, info.Methods, set))
+						}
+						if got := srv.ServerInfo().Methods; strings.Join(got, ",") != strings.Join(set, ",") {
+							problems = append(problems, fmt.Sprintf("step %d: ServerInfo().Methods = %q, the assigner lists %q", i, got, set))
+						}
+						for _, n := range []string{"a", "b", "c", "a.x", "z"} {
+							rsp, err := cli.Call(context.Background(), n, nil)
+							if d.set[n] && (err != nil || rsp.ResultString() != fmt.Sprintf("%q", "dyn|"+n)) {
+								problems = append(problems, fmt.Sprintf("step %d: %q is assigned but the call gave %v", i, n, err))
+							}
+							if !d.set[n] && jrpc2.ErrorCode(err) != -32601 {
+								problems = append(problems, fmt.Sprintf("step %d: %q is not assigned but the call gave %v", i, n, err))
+							}
+						}
+					}
+					cli.Close()
+					srv.WaitStatus()
+				})
+				r.Calls(x.Steps)
+				r.Case(fmt.Sprintf("dynamic/restart=%d", restartAt), true)
+				Hit("C17.R4")
+				if x.Outcome != "ok" {
+					r.Fail("G1", "changing assigner", "run ended with "+x.Outcome+" "+firstLine(x.Detail), "")
+				}
+				for _, p := range problems {
+					r.Fail("C17.R4", "changing assigner", p, "")
+				}
+			}
+			// an assigner that lists nothing: the documented placeholder
+			var got []string
+			x := vs.Run(nil, func() {
+				srv := jrpc2.NewServer(anyAssigner{func(context.Context, *jrpc2.Request) (any, error) { return 1, nil }}, nil)
+				got = srv.ServerInfo().Methods
+			})
+			r.Calls(x.Steps)
+			r.Case("non-namer", true)
+			if strings.Join(got, ",") != "*" {
+				r.Fail("C17.R4", "assigner without Names", fmt.Sprintf("ServerInfo().Methods = %q, want [\"*\"]", got), "")
+			}
+			r.Sample(map[string]any{"sets": steps})
+		},
+	}
+}
+
 func c17Scenarios(tier string) []*Scenario {
 	alpha := []rune{'a', 'b', '.', 'r', 'p', 'c', 'R', 'é'}
 	var out []*Scenario
 	trees := c17Trees()
+	out = append(out, c17Dynamic())
 	if tier == "quick" {
 		names := c17Names(alpha, 1, 4, 0)
 		rpc := c17Names(alpha, 1, 3, 0)
